@@ -168,7 +168,8 @@ fn check_pair(rng: &mut Rng, obj: Obj, sh: Sh, p: &[f32], t: &[f32], fam: &str, 
             out.viol(&format!("obj:{}:grad:not-finite", obj.name()), format!("{} gradient[{}] = {} for prediction {:e}, target {:e} ({} pair; documented {:e})", obj.name(), i, grad[i], p[i], t[i], fam, gwant[i]), detail());
             break;
         }
-        if (grad[i] as f64 - gwant[i]).abs() > 1e-5 * gwant[i].abs() + 1e-37 {
+        // RMSE divides by an f32 sum over n terms: its relative error grows with n
+        if (grad[i] as f64 - gwant[i]).abs() > (1e-5 + n as f64 * 1.2e-7) * gwant[i].abs() + 1e-37 {
             out.viol(&format!("obj:{}:grad:value:{}", obj.name(), rank), format!("{} gradient[{}] = {:e}, documented {:e} for prediction {:e}, target {:e} ({} pair)", obj.name(), i, grad[i], gwant[i], p[i], t[i], fam), detail());
             break;
         }
@@ -213,7 +214,8 @@ fn check_pair(rng: &mut Rng, obj: Obj, sh: Sh, p: &[f32], t: &[f32], fam: &str, 
     }
     // (5) gradient is the derivative of the reported loss (AE, MSE, BCE, KL), interior points
     if interior && matches!(obj, Obj::AE | Obj::MSE | Obj::BCE | Obj::KL) {
-        for i in 0..n {
+        let picks: Vec<usize> = if n <= 16 { (0..n).collect() } else { (0..16).map(|_| rng.range(0, n - 1)).collect() };
+        for i in picks {
             let pd: Vec<D> = p.iter().enumerate().map(|(j, v)| if i == j { D::var(*v as f64) } else { D::c(*v as f64) }).collect();
             let l = obj_loss(obj, &pd, &tf);
             if (grad[i] as f64 - l.d).abs() > 1e-4 * l.d.abs() + 1e-30 {
@@ -254,7 +256,7 @@ impl Monitor for C06 {
         vec![("pairs", tier.pick(420_000, 8_400_000)), ("grid", tier.pick(70_000, 700_000))]
     }
     fn rule(&self) -> &'static str {
-        "pairs: case = (objective, family, length 1..8, flat or 3-D factorisation); families for AE/MAE/MSE/RMSE: random (scales 1e-3..1e5), some-equal, ulp-differences, tiny-differences (1e-44..1e-10), large-magnitudes (1e8..1e15), boundary-grid; for CE/BCE/KL: random-interior, one-hot-target, boundary-grid {0,1,1e-6,1-1e-6,denormals,..}, equal-pairs, exact-zeros-and-ones, distributions. Every case: loss vs documented formula (running f32 error bound), loss finite, gradient vs documented formula (1e-5 relative), gradient shape == prediction shape, a clamp interval applied (symmetric, narrow, degenerate, half-line [0,MAX], random, one-sided with an infinite bound, (-inf,inf)): loss unchanged and gradient == unclamped gradient limited to the interval bit-for-bit; interior cases of AE/MSE/BCE/KL additionally: gradient == dual-number derivative of the documented loss and ~ central difference of the library's own loss(). grid: full product of boundary values for vectors of length <= 3. Distinct = distinct (objective, family, shape, data hash)."
+        "pairs: case = (objective, family, length 1..8 or (every third block) from {9,15..17,31,33,63..65,127..129,255,257,1000,1023,1025,4097}, flat or 3-D factorisation); families for AE/MAE/MSE/RMSE: random (scales 1e-3..1e5), some-equal, ulp-differences, tiny-differences (1e-44..1e-10), large-magnitudes (1e8..1e15), boundary-grid; for CE/BCE/KL: random-interior, one-hot-target, boundary-grid {0,1,1e-6,1-1e-6,denormals,..}, equal-pairs, exact-zeros-and-ones, distributions. Every case: loss vs documented formula (running f32 error bound), loss finite, gradient vs documented formula (1e-5 + n eps relative), gradient shape == prediction shape, a clamp interval applied (symmetric, narrow, degenerate, half-line [0,MAX], random, one-sided with an infinite bound, (-inf,inf)): loss unchanged and gradient == unclamped gradient limited to the interval bit-for-bit; interior cases of AE/MSE/BCE/KL additionally: gradient == dual-number derivative of the documented loss and ~ central difference of the library's own loss(). grid: full product of boundary values for vectors of length <= 3. Distinct = distinct (objective, family, shape, data hash)."
     }
     fn assumptions(&self) -> Vec<&'static str> {
         vec![
@@ -270,7 +272,12 @@ impl Monitor for C06 {
         match gen {
             "pairs" => {
                 let fam = ((idx / 7) % 6) as usize;
-                let n = 1 + ((idx / 42) % 8) as usize;
+                // every third block of cases: long vectors around the sizes where chunked or blocked
+                // summation would switch code paths
+                let n = if (idx / 336) % 3 == 2 { *rng.pick(&[9usize, 15, 16, 17, 31, 33, 63, 64, 65, 127, 128, 129, 255, 257, 1000, 1023, 1025, 4097]) } else { 1 + ((idx / 42) % 8) as usize };
+                if n > 8 {
+                    out.cover("long_vector_lengths", n.to_string());
+                }
                 let (p, t, name, interior) = make_pair(&mut rng, obj, fam, n);
                 let sh = if (idx / 336) % 2 == 1 || rng.chance(0.3) { factor(&mut rng, n) } else { Sh::Flat(n) };
                 out.key = format!("{} {} {} {:016x}", obj.name(), name, sh.name(), crate::rng::fnv(&format!("{:?}{:?}", p, t)));
@@ -314,6 +321,7 @@ impl Monitor for C06 {
     }
     fn finish(&self, _tier: Tier, _seed: u64, agg: &mut Agg) {
         agg.require(agg.set_size("objective_family_rank") >= 7 * 6 * 2, format!("only {} (objective, family, rank) combinations exercised", agg.set_size("objective_family_rank")));
+        agg.require(agg.set_size("long_vector_lengths") >= 18, "long vector lengths not all exercised".into());
         agg.require(agg.count("derivative_comparisons") > 500, "too few derivative comparisons".into());
     }
 }
